@@ -107,6 +107,10 @@ func RunBatch(t *testing.T, world WorldFunc, c BatchConfig) *Summary {
 		}
 		seed := c.SeedFor(i)
 		spec := Spec{Prop: c.Prop, Seed: seed}
+		if c.Out != "" {
+			// lets the driver attribute a process crash (a panic in a goroutine the library started) to a seed
+			os.WriteFile(c.Out+".cur", []byte(fmt.Sprint(seed)), 0o644)
+		}
 		o := SafeRun(t, world, spec)
 		sum.Runs++
 		if len(sum.Seeds) == 0 {
